@@ -1,6 +1,7 @@
 """C31 — the environment handed to the build daemon arrives exactly (quoting + size-prefixed framing)."""
 import ast
 
+from ..core import generic as G
 from ..core import astutil as A
 from ..core import bashlex as B
 from ..core import match as M
@@ -248,6 +249,10 @@ def _r3r4(ctx, P, EP, dm):
     wl = [c.words[1].strip('"') for c in ac if c.name == "__ebd_write_line" and len(c.words) > 1]
     ctx.check("R4", DAEMON, wl == ["env_receiving_failed", "env_received"], f"daemon-answers:{wl}", "the daemon answers env_receiving_failed (and exits) or env_received")
     ctx.floor("R4", 7)
+
+    # ---- R5 rendering an environment does not edit the caller's mapping (the same mapping is sent for every phase) -------
+    G.pure(ctx, "R5", [("pkgcore.ebuild.processor", "EbuildProcessor._generate_env_str", (), "markers popped from the caller's dict are gone for the next phase")])
+    ctx.floor("R5", 1)
 
 
 FP = "src/pkgcore/ebuild/processor.py"
